@@ -339,6 +339,17 @@ Proof.
   apply fr_hset; [|apply fr_refl]. right; right. cbn [wbuf]. unfold buf_of. rewrite Ea, Ep. reflexivity.
 Qed.
 
+Lemma fp_FromWrap st i kd j off n st' : step_new st (FromWrap i kd j off n) = Some st' -> footprint st (FromWrap i kd j off n) st'.
+Proof.
+  unfold step_new, footprint. cbn [step]. destruct (resolve_wrap st j off n) as [[q c]|]; [|discriminate].
+  apply fp_build. tgt.
+Qed.
+Lemma fp_ResetWrap st i j off n st' : step_new st (ResetWrap i j off n) = Some st' -> footprint st (ResetWrap i j off n) st'.
+Proof.
+  unfold step_new, footprint. cbn [step]. destruct (resolve_wrap st j off n) as [[q c]|]; [|discriminate].
+  apply fp_assign_from; [tgt|]. intros f Hf. exists i. split; [tgt | exact Hf].
+Qed.
+
 Lemma footprint_step st o st' : step_new st o = Some st' -> footprint st o st'.
 Proof.
   destruct o.
@@ -360,6 +371,8 @@ Proof.
   - apply fp_MoveAssign.
   - apply fp_Destroy.
   - apply fp_Write.
+  - apply fp_FromWrap.
+  - apply fp_ResetWrap.
 Qed.
 
 (* ------------------------------------------------------------ exclusivity, as needed by the frame theorem *)
